@@ -17,10 +17,12 @@ type wEl struct {
 	hasText   bool
 }
 
-func E(ns, local string, children ...*wEl) *wEl { return &wEl{ns: ns, local: local, children: children} }
-func (e *wEl) A(k, v string) *wEl                { e.attrs = append(e.attrs, [2]string{k, v}); return e }
-func (e *wEl) T(s string) *wEl                   { e.text = s; e.hasText = true; return e }
-func (e *wEl) Add(c ...*wEl) *wEl                { e.children = append(e.children, c...); return e }
+func E(ns, local string, children ...*wEl) *wEl {
+	return &wEl{ns: ns, local: local, children: children}
+}
+func (e *wEl) A(k, v string) *wEl { e.attrs = append(e.attrs, [2]string{k, v}); return e }
+func (e *wEl) T(s string) *wEl    { e.text = s; e.hasText = true; return e }
+func (e *wEl) Add(c ...*wEl) *wEl { e.children = append(e.children, c...); return e }
 
 type wStyle struct {
 	r        *RNG
